@@ -115,22 +115,10 @@ def rank_program(ds, torch, S, seed, rank, world, with_twin):
             hist["u_twin"].append(rec2)
             hist["twin"].append([q.detach().clone() for q in twin_p])
         hist["params"].append([p.detach().clone() for p in params])
-    # state placement (C14): for every parameter, which block keys hold local state on this rank
-    placement = {}
-    for j, p in enumerate(params):
-        st = opt.state[p]
-        for k, v in st.items():
-            if isinstance(k, str) and k.startswith("block_"):
-                sizes = []
-                for name in ("adagrad", "momentum", "filtered_grad"):
-                    if name in v:
-                        t_ = v[name]
-                        sizes.append(int((t_.to_local() if hasattr(t_, "to_local") else t_).numel()))
-                sh = v.get("shampoo")
-                if sh is not None:
-                    for t_ in getattr(sh, "factor_matrices", ()):
-                        sizes.append(int((t_.to_local() if hasattr(t_, "to_local") else t_).numel()))
-                placement[(j, k)] = sizes
+    from ..distlib import collect_placement, live_buffer_geometry
+
+    placement = collect_placement(opt, params)
+    hist["buffers"] = live_buffer_geometry(opt)
     hist["placement"] = placement
     return hist
 
